@@ -247,6 +247,8 @@ func main() {
 		version(*in, *out)
 	case "config":
 		configTables(*in, *out)
+	case "wire":
+		wireTables(*in, *out)
 	default:
 		fmt.Fprintln(os.Stderr, "unknown -what")
 		os.Exit(2)
